@@ -376,8 +376,15 @@ def _collect_bound_values(
 
             current_to_original = build_reverse_rename_map(node._rename_history, "inputs")
             original_to_current = {orig: cur for cur, orig in current_to_original.items()}
-            # Merge into all_bound (current graph's values take precedence)
+            # Merge into all_bound (current graph's values take precedence).
+            # Only bindings of names the inner graph still takes as inputs are
+            # surfaced: one it no longer needs (narrowed away by select or an
+            # entry point) is private to it, and the wrapper may carry an
+            # unrelated input of that name.
+            inner_inputs = set(node.graph.inputs.all)
             for key, value in inner_bound.items():
+                if key not in inner_inputs:
+                    continue
                 key = original_to_current.get(key, key)
                 if key not in all_bound:
                     all_bound[key] = value
